@@ -316,8 +316,9 @@ pub fn validate(q: &Query, edges: &[Edge], r: &RRoute) -> (Vec<Fail>, Info) {
 			}
 			for e in 0..n {
 				// The hop's own raise (to its own minimum) is not exempt; only later hops' raises are.
-				let own = if e == last { v.amt[e] } else if justified[e] { v.amt[e].max(u[e]) } else { u[e] };
-				debug_assert!(own <= v.amt[e]);
+				// (never more than what is actually carried: with an underpaid fee, already reported
+				// above, the recomputed amounts can exceed the real ones)
+				let own = if e == last || justified[e] { v.amt[e] } else { u[e].min(v.amt[e]) };
 				joint[v.edges[e]] += own;
 				joint_actual[v.edges[e]] += v.amt[e];
 				users[v.edges[e]] += 1;
